@@ -293,3 +293,19 @@ Example ex_conn :
   conn_loop (Some (load ex_file18)) [q "pw1"; q "bad"; q "pw1"] [] []
   = Some (["Query"; "Query"], [OFrame ""; OFrame "unauthorized"; OFrame ""]).
 Proof. vm_compute. reflexivity. Qed.
+
+(* CheckAll means ALL: with '*' holding exactly one of the two permissions of the unified endpoint,
+   a caller without credentials (or with a wrong password, or without the other permission) is
+   refused; a user who holds the other half is accepted — each permission is decided on its own. *)
+Example ex_all_of :
+  let half := [ {| username := "*"; password := ""; perms := ["query"] |};
+                {| username := "u1"; password := "pw1"; perms := ["execute"] |};
+                {| username := "u2"; password := "pw2"; perms := ["status"] |} ] in
+  let go u p := match term_of "COMMAND_TYPE_REQUEST" with
+                | Some h => s_out (run (holds (authz (Some (load half)) u p) true) false true h)
+                | None => [] end in
+  go "" "" = [OFrame "unauthorized"] /\ go "u1" "bad" = [OFrame "unauthorized"]
+  /\ go "u2" "pw2" = [OFrame "unauthorized"] /\ go "u1" "pw1" = [OFrame ""]
+  /\ holds (authz (Some (load half)) "" "") true (GAll ["query"; "execute"]) = false
+  /\ holds (authz (Some (load half)) "" "") true (GPerm "query") = true.
+Proof. vm_compute. repeat split. Qed.
